@@ -1,11 +1,13 @@
 """C24 — the rate limiter never exceeds its rate and admits as soon as possible
-(hail/python/hailtop/utils/rate_limiter.py::RateLimiter.__aenter__).
+(hail/python/hailtop/utils/rate_limiter.py::RateLimiter.__aenter__ and __aexit__).
 
-Model coq/theories/RateLimiter/Model.v (integer ticks; Enter / Wake i / Advance dt); theorems for ALL action lists in
+Model coq/theories/RateLimiter/Model.v (integer ticks; Enter / Wake i / Advance dt / Leave i kind / Abandon i: an admitted
+entrant stays inside its `async with` body until the schedule makes the body return, raise, be cancelled or time out;
+a sleeper may be cancelled inside __aenter__); theorems for ALL action lists in
 Props_C24.v.  Tie X: the real class runs on the deterministic loop with a fully controlled virtual clock (time.time and
 loop.time patched; dyadic float times, tick = 1/4 s, so its float arithmetic is exact); the harness fires each sleep
 timer itself (never early, possibly late, in any order).  After every action now, the deque, every sleeper's timer and
-the admission log are compared with the model (vm_compute).  Oracle: from the admission log alone — no window
+the admission log and the set of entrants inside a body are compared with the model (vm_compute).  Oracle: from the admission log alone — no window
 [a, a+window) with more than `count` admissions; an entrant is sent to sleep only when `count` admissions share a window
 with now, and its timer is set to the first instant a slot frees; with asyncio's own timers everybody gets in.
 """
@@ -21,16 +23,22 @@ COQ_PROPS = 'theories/RateLimiter/Props_C24.v'
 READY = True
 META = dict(
     design_ref='§5.C C24',
-    technique='Coq proof (invariant induction over arbitrary action lists) about a hand-written executable model of RateLimiter.__aenter__; '
+    technique='Coq proof (invariant induction over arbitrary action lists) about a hand-written executable model of RateLimiter.__aenter__/__aexit__; '
               'correspondence with the real class under a controlled virtual clock',
-    level_text='Machine-checked theorems (Coq 8.16, closed under the global context) over ALL lists of Enter / Wake(i) / Advance(dt) actions '
-               '(any number of entrants, arrivals at any instants, sleep timers firing late and in any order), every window length, every '
+    level_text='Machine-checked theorems (Coq 8.16, closed under the global context) over ALL lists of Enter / Wake(i) / Advance(dt) / '
+               'Leave(i, Normal|Raise|Cancel|Timeout) / Abandon(i) actions (any number of entrants, arrivals at any instants, sleep timers firing '
+               'late and in any order, every admitted entrant leaving its `async with` body at any moment by returning, raising, being cancelled '
+               'or timing out, sleeping entrants being cancelled inside __aenter__), every window length, every '
                'count >= 1: no half-open window [t, t+w) ever holds more than count admissions; the quantity __aenter__ compares with count '
                'equals the number of admissions in (now-w, now], so an attempt is admitted iff that keeps the bound, and a refusal is forced '
                '(admitting would put count+1 admissions into one window); every sleeper whose timer T is in the future is inadmissible now and '
-               'T is exactly the instant the admission made at T-w leaves the window. The model (integer ticks) is tied to the source by running '
+               'T is exactly the instant the admission made at T-w leaves the window; body exits are irrelevant (C24_body_exits_irrelevant: clock, '
+               'deque, sleepers, timers and admission log after any schedule equal those of the schedule with all body exits erased - the model of '
+               '__aexit__ is the identity on every kind of exit, and the tie checks that against the real __aexit__ with real task.cancel() and a '
+               'really expiring asyncio.timeout). The model (integer ticks) is tied to the source by running '
                'the real class under a controlled clock with dyadic float times and comparing now, deque, every timer and the admission log '
-               'after every action (exhaustive small scope on a grid of window/4 + seeded random).',
+               'and who is inside a body after every action (exhaustive small scope on a grid of window/4, without and with body exits of all four '
+               'kinds and sleeper cancellation, + seeded random schedules containing all action kinds).',
     level_note='The theorems are about the hand model in integer time; the tie to the source is the (sampled) correspondence run on dyadic times '
                'where float arithmetic is exact - rounding of arbitrary float times is not covered. The clock is assumed monotone (the code reads '
                'time.time(), which is not guaranteed monotone). Promptness is stated for the limiter (decision exact, timer at the first feasible '
@@ -38,7 +46,8 @@ META = dict(
     partial=False,
 )
 TRUSTED = ['harness/aio/detloop.py + harness/aio/tickloop.py (virtual clock, ready-queue stepping; CPython private attributes)',
-           'harness/impl/c24_ratelimit.py (fires asyncio.sleep timers by hand via loop._scheduled; maps float times to ticks and fails if a time is off the grid)',
+           'harness/impl/c24_ratelimit.py (fires asyncio.sleep timers by hand via loop._scheduled; maps float times to ticks and fails if a time is off the grid; '
+           'bodies hang on an Event and are ended by set / raise / task.cancel() / asyncio.timeout(None).reschedule(now))',
            'CPython 3.12 asyncio.sleep / call_later and IEEE double arithmetic on dyadic values']
 ASSUMPTIONS = ['the clock (time.time) is monotone; timers never fire early (they may fire late and in any order)',
                'one loop iteration of __aenter__ up to its return/await is atomic under asyncio',
@@ -49,11 +58,11 @@ HEADER = 'From HailV Require Import Common.Prelude RateLimiter.Model.\nOpen Scop
 
 class _Ref:   # schedule enumeration only
     def __init__(self, c, w):
-        self.c, self.w, self.now, self.items, self.waiters, self.n = c, w, 0, [], {}, 0
+        self.c, self.w, self.now, self.items, self.waiters, self.n, self.inside = c, w, 0, [], {}, 0, []
 
     def copy(self):
         r = _Ref(self.c, self.w)
-        r.now, r.items, r.waiters, r.n = self.now, list(self.items), dict(self.waiters), self.n
+        r.now, r.items, r.waiters, r.n, r.inside = self.now, list(self.items), dict(self.waiters), self.n, list(self.inside)
         return r
 
     def _attempt(self, i):
@@ -61,6 +70,7 @@ class _Ref:   # schedule enumeration only
             self.items.pop(0)
         if len(self.items) < self.c:
             self.items.append(self.now)
+            self.inside.append(i)
         else:
             self.waiters[i] = (self.items[0] if self.items else 0) + self.w
 
@@ -73,6 +83,11 @@ class _Ref:   # schedule enumeration only
             if i in self.waiters and self.waiters[i] <= self.now:
                 del self.waiters[i]
                 self._attempt(i)
+        elif a[0] == 'leave':
+            if a[1] in self.inside:
+                self.inside.remove(a[1])
+        elif a[0] == 'abandon':
+            self.waiters.pop(a[1], None)
         else:
             self.now += max(0, a[1])
 
@@ -80,7 +95,12 @@ class _Ref:   # schedule enumeration only
         return [i for i, t in sorted(self.waiters.items()) if t <= self.now]
 
 
-def enum_schedules(c, w, max_entrants, depth, steps):
+KINDS = ['normal', 'raise', 'cancel', 'timeout']
+
+
+def enum_schedules(c, w, max_entrants, depth, steps, exits=()):
+    """exits = the kinds of body exit to enumerate (for every entrant inside a body); with exits, a sleeper may also be
+    abandoned."""
     out = []
 
     def rec(ref, acts, left):
@@ -89,6 +109,9 @@ def enum_schedules(c, w, max_entrants, depth, steps):
             return
         opts = [['enter']] if ref.n < max_entrants else []
         opts += [['wake', i] for i in ref.due()]
+        opts += [['leave', i, k] for i in ref.inside for k in exits]
+        if exits:
+            opts += [['abandon', i] for i in sorted(ref.waiters)]
         if acts and acts[-1][0] == 'adv':
             pass                     # two advances in a row are one advance
         else:
@@ -110,7 +133,14 @@ def random_schedule(rng, c, w, n):
     for _ in range(n):
         x = rng.random()
         due = ref.due()
-        if x < 0.35:
+        y = rng.random()
+        if y < 0.14 and ref.inside:
+            a = ['leave', rng.choice(ref.inside), rng.choice(KINDS)]      # a body ends: returns / raises / is cancelled / times out
+        elif y < 0.17 and ref.waiters:
+            a = ['abandon', rng.choice(sorted(ref.waiters))]               # a sleeper is cancelled inside __aenter__
+        elif y < 0.19:
+            a = rng.choice([['leave', rng.randint(0, ref.n + 1), rng.choice(KINDS)], ['abandon', rng.randint(0, ref.n + 1)]])   # maybe not inside / not sleeping: ignored on both sides
+        elif x < 0.35:
             a = ['enter']
         elif x < 0.65 and due:
             a = ['wake', rng.choice(due)]
@@ -140,6 +170,10 @@ def all_schedules(ctx):
     for c in (1, 2, 3):
         out += [(f'exhaustive count{c} window4 steps1,3,4', {'count': c, 'window': 4, 'acts': a})
                 for a in enum_schedules(c, 4, c + 3, d if c < 3 else d - 1, [1, 3, 4])]
+    # body exits: every admitted entrant may leave its body at any point, in each of the four manners; sleepers may be cancelled
+    for c in (1, 2):
+        out += [(f'exhaustive-with-exits count{c} window4 steps1,4', {'count': c, 'window': 4, 'acts': a})
+                for a in enum_schedules(c, 4, c + 2, ctx.scale(7 - c, 8 - c), [1, 4], exits=KINDS)]
     for k in range(ctx.scale(300, 4000)):
         c = ctx.rng.choice([1, 1, 2, 3, 5, 10])
         w = ctx.rng.choice([1, 4, 4, 8, 12, 240])
@@ -154,6 +188,10 @@ def coq_actions(acts):
             items.append('Enter')
         elif a[0] == 'wake':
             items.append(f'Wake {a[1]}%nat')
+        elif a[0] == 'leave':
+            items.append(f'Leave {a[1]}%nat {a[2].capitalize()}')
+        elif a[0] == 'abandon':
+            items.append(f'Abandon {a[1]}%nat')
         else:
             items.append(f'Advance {zlit(a[1])}')
     return listlit(items)
@@ -172,6 +210,7 @@ def fingerprint(trace):
         xs += [len(o['adm']), len(last)]
         for i, t in last:
             xs += [i, t]
+        xs += [len(o['inside'])] + list(o['inside'])
         for x in xs:
             h = (h * 131 + x + 7) & _P
     return h
@@ -184,10 +223,14 @@ def encode(acts):
             d = 1
         elif a[0] == 'wake':
             d = 2 + 4 * a[1]
+        elif a[0] == 'leave':
+            d = 4 * (8 * a[1] + KINDS.index(a[2]))
+        elif a[0] == 'abandon':
+            d = 4 * (8 * a[1] + 4)
         else:
             assert -512 <= a[1] < 2 ** 17
             d = 3 + 4 * (a[1] + 512)
-        assert 0 < d < 2 ** 20
+        assert 0 <= d < 2 ** 20 and (a[0] == 'enter' or a[1] >= 0 or a[0] == 'adv')
         z |= d << (20 * k)
     return z
 
@@ -209,7 +252,7 @@ def model_traces(ctx, schedules):
     exprs = [f'trace {zlit(s["window"])} {zlit(s["count"])} (init 0) {coq_actions(s["acts"])}' for s in schedules]
     vals = coq_eval(ctx, HEADER, exprs, shard=100)
     return [[{'now': o['now'], 'items': list(o['items']), 'waiters': sorted([list(x) for x in o['waiters']]),
-              'adm': [list(x) for x in o['adm']]} for o in tr] for tr in vals]
+              'adm': [list(x) for x in o['adm']], 'inside': list(o['inside'])} for o in tr] for tr in vals]
 
 
 def impl_results(ctx, schedules):
@@ -242,8 +285,8 @@ def correspond(ctx):
             dis.append(Disagreement('RateLimiter.trace~RateLimiter.__aenter__', {'schedule': s}, 'fingerprint differs', r['trace'][-1] if r['trace'] else None))
     return Corr(evaluations=len(schedules), distinct_nontrivial=len(nontrivial),
                 rule='one evaluation = one schedule run on the real RateLimiter (virtual clock, hand-fired timers) and on the Coq model (vm_compute; '
-                     'fingerprint of the whole trace, differing schedules re-evaluated in full); now, deque, every sleeper\'s timer and the admission '
-                     f'log compared after EVERY action ({n_obs} observations); non-trivial = distinct schedule in which somebody had to sleep',
+                     'fingerprint of the whole trace, differing schedules re-evaluated in full); now, deque, every sleeper\'s timer, the admission '
+                     f'log and the entrants inside a body compared after EVERY action ({n_obs} observations); non-trivial = distinct schedule in which somebody had to sleep',
                 samples=[{'schedule': s, 'final': r['trace'][-1] if r['trace'] else None} for (_, s), r in list(zip(tagged, impl))[:1] + list(zip(tagged, impl))[-2:]],
                 disagreements=dis, histograms={'schedule_class': hist}, exhaustive=True,
                 names=['RateLimiter.trace~RateLimiter.__aenter__'])
@@ -253,7 +296,7 @@ WHAT = {
     'window': 'more than `count` admissions fall into one half-open window of the configured length',
     'not-prompt': 'an entrant was kept waiting although admitting it would have kept the bound (sent to sleep while admissible, timer later than the first instant a slot frees, or never admitted)',
     'livelock': 'the limiter spins: a retry loop never suspends at a fixed clock value',
-    'raised': '__aenter__ raised',
+    'raised': '__aenter__/__aexit__ raised, swallowed the exception of the body, or a body exit did not end the entrant',
 }
 
 
@@ -280,7 +323,8 @@ def oracle(ctx, budget):
     return fails, {'evaluations': len(tagged), 'distinct_nontrivial': len({str(s) for _, s in tagged}),
                    'rule': 'oracle (admission log only): every window [a, a+window) starting at an admission holds <= count admissions; an entrant sent to '
                            'sleep was inadmissible and its timer is the (count-th most recent admission) + window; end game with asyncio\'s own timers: '
-                           'everybody admitted, each exactly when a slot freed',
+                           'everybody admitted, each exactly when a slot freed; admissions are counted when __aenter__ returns and stay counted however '
+                           'the body ends (return / exception / task.cancel() / asyncio.timeout expiry are schedule actions); the body\'s own exception must come out unchanged',
                    'samples': [{'schedule': tagged[0][1], 'violations': impl[0]['viol']}] if tagged else []}
 
 
